@@ -200,7 +200,7 @@ ADDED11 = {
     "C01": "C01.f accepts an early return under a flag that provably means 'every command finished'.",
 }
 ADDED13 = {
-    "C10": "C10.e also runs the layout forms through the LALR(1) table generated from the extracted productions (yacc's conflict resolution): a form the grammar derives but the generated parser refuses is the violation.",
+    "C10": "C10.l: every sentence of up to 12 (thorough: 13) token names the grammar derives is accepted by the generated table - one obligation per silently resolved conflict (one known finding: `[a:b, c]`). C10.e also runs the layout forms through the LALR(1) table generated from the extracted productions (yacc's conflict resolution): a form the grammar derives but the generated parser refuses is the violation.",
     "C03": "Engine C: a generator over the inputs is one-shot (a second reader finds an unknown rest); `nomask` under `not any(m.any() for m in masks)` is the empty union of all input masks.",
     "C04": "Engine C: clip(x, lo, hi, out=x) limits x in place and, through a data view, its masked owner; asarray with dtype= is not known to be the operand's buffer.",
     "C15": "C15.b: the decoder may be spelled codecs.decode / codecs.escape_decode; round-trip witnesses include text outside ASCII.",
